@@ -455,15 +455,20 @@ func (c *evalCtx) ev(x *SExpr) (*Val, error) {
 			return nil, err
 		}
 		var pats []string
+		alt := ""
 		for _, p := range x.Pats {
 			pv, err := n.ev(p)
 			if err != nil {
 				return nil, err
 			}
 			pats = append(pats, pv.T)
+			alt = pv.PatAlt
 		}
 		bt := body.T
-		if len(pats) > 0 {
+		if len(pats) == 1 && alt != "" {
+			// a map lookup as the trigger: membership tests of the same key fire it as well
+			bt = "(! " + bt + " :pattern (" + pats[0] + ") :pattern (" + alt + "))"
+		} else if len(pats) > 0 {
 			bt = "(! " + bt + " :pattern (" + strings.Join(pats, " ") + "))"
 		}
 		return &Val{T: "(" + x.Op + " (" + strings.Join(bs, " ") + ") " + bt + ")", S: "Bool"}, nil
@@ -787,8 +792,9 @@ func (c *evalCtx) index(x *SExpr) (*Val, error) {
 			return &Val{T: sSel(sSel(e.get(c.cur, comp, arrSort(es)), base), idx), S: es, GoT: t.Elem(),
 				Loc: &Loc{Kind: locElem, Comp: comp, CS: es, Base: base, Idx: idx, GoT: t.Elem()}}, nil
 		case *types.Map:
-			_, val, _, ks, vs := e.mapComps(t)
-			return &Val{T: sSel(sSel(e.get(c.cur, val, "(Array Int (Array "+ks+" "+vs+"))"), a.T), i.T), S: vs, GoT: t.Elem()}, nil
+			dom, val, _, ks, vs := e.mapComps(t)
+			return &Val{T: sSel(sSel(e.get(c.cur, val, "(Array Int (Array "+ks+" "+vs+"))"), a.T), i.T), S: vs, GoT: t.Elem(),
+				PatAlt: sSel(sSel(e.get(c.cur, dom, "(Array Int (Array "+ks+" Bool))"), a.T), i.T)}, nil
 		}
 	}
 	if strings.HasPrefix(a.S, "(Array ") {
@@ -888,6 +894,13 @@ func (c *evalCtx) call(x *SExpr) (*Val, error) {
 		}
 		dom, _, _, ks, _ := e.mapComps(m)
 		return bo(sSel(sSel(e.get(c.cur, dom, "(Array Int (Array "+ks+" Bool))"), args[0].T), args[1].T))
+	case "elemaddr":
+		// elemaddr(s, i): the address of element i of slice s (what &s[i] evaluates to)
+		return &Val{T: "(ep (s-arr " + args[0].T + ") (ix (s-off " + args[0].T + ") " + args[1].T + "))", S: "Int"}, nil
+	case "unboxBytes":
+		// unboxBytes(x): the []byte value held by the interface value x
+		bt := types.NewSlice(types.Typ[types.Byte])
+		return &Val{T: sSel(e.get(c.cur, "Bx_Slice", "(Array Int Slice)"), "(i-val "+args[0].T+")"), S: "Slice", GoT: bt}, nil
 	case "unshared":
 		// unshared(x): x is an object created by the function under verification and not yet visible
 		// to other goroutines (decided statically; false inside the callee's own verification)
@@ -951,6 +964,9 @@ func (c *evalCtx) call(x *SExpr) (*Val, error) {
 		// under verification; called("callee key"): whether such a call was reached
 		key := x.Args[0].Name
 		crs := c.fr.root().callResults[key]
+		if name == "called" && len(crs) == 0 {
+			return bo("false")
+		}
 		if len(crs) == 0 {
 			return nil, fmt.Errorf("unbound:no call of %s", key)
 		}
